@@ -830,6 +830,16 @@ class BlockBase(Base):
                             content[-1].get_end_label(),
                         )
                         if start_label != end_label:
+                            if isinstance(obj, di.End_Do_Stmt):
+                                # An END DO can only terminate its own
+                                # loop: one whose label differs from (or
+                                # that lacks) the label of this DO
+                                # statement means that this is not a
+                                # properly terminated block, so give
+                                # everything back and report no match.
+                                for obj in reversed(content):
+                                    obj.restore_reader(reader)
+                                return None
                             continue
                     if match_names:
                         start_name, end_name = (
